@@ -255,7 +255,14 @@ func main() {
 	only := flag.String("only", "", "comma-separated function names to instrument (default: all)")
 	imp := flag.String("import", "berty.tech/weshnet/v2/internal/vsched", "import path of vsched")
 	skip := flag.String("skip", "", "comma-separated substrings: lock operations on receivers containing one are left alone")
+	calls := flag.String("calls", "", "comma-separated method names: a call X.Name(...) becomes vsched.At(label, X).Name(...), i.e. a scheduling point right before the call")
 	flag.Parse()
+	callSet := map[string]bool{}
+	for _, n := range strings.Split(*calls, ",") {
+		if n != "" {
+			callSet[n] = true
+		}
+	}
 	skipRecv = strings.Split(*skip, ",")
 	f, err := parser.ParseFile(fset, *in, nil, parser.ParseComments)
 	if err != nil {
@@ -278,6 +285,26 @@ func main() {
 		}
 		curFunc, counter = fd.Name.Name, 0
 		fd.Body.List = rewriteBlock(fd.Body.List)
+		if len(callSet) > 0 {
+			ast.Inspect(fd.Body, func(n ast.Node) bool {
+				c, ok := n.(*ast.CallExpr)
+				if !ok {
+					return true
+				}
+				sel, ok := c.Fun.(*ast.SelectorExpr)
+				if !ok || !callSet[sel.Sel.Name] {
+					return true
+				}
+				if id, ok := sel.X.(*ast.Ident); ok && id.Name == "vsched" {
+					return true
+				}
+				counter++
+				nYields++
+				lbl := &ast.BasicLit{Kind: token.STRING, Value: strconv.Quote(fmt.Sprintf("%s#%d:call:%s", curFunc, counter, sel.Sel.Name))}
+				sel.X = &ast.CallExpr{Fun: &ast.SelectorExpr{X: ast.NewIdent("vsched"), Sel: ast.NewIdent("At")}, Args: []ast.Expr{lbl, sel.X}}
+				return true
+			})
+		}
 	}
 	// add the import
 	f.Decls = append([]ast.Decl{&ast.GenDecl{Tok: token.IMPORT, Specs: []ast.Spec{
